@@ -197,6 +197,7 @@ func (e *Engine) call(fr *frame, st *State, c *ast.CallExpr, k func(st *State, r
 				pos := e.xlog(st, vobj.Name())
 				e.xappend(st, vobj.Name(), ev)
 				st.dirty = true
+				e.havocAddressed(fr, st, c.Args)
 				sig := vobj.Type().Underlying().(*types.Signature)
 				if sig.Results().Len() == 1 {
 					// the value the callback returns: cres("<name>", i) of the i-th call, an otherwise unconstrained value of its type
@@ -381,6 +382,30 @@ func (e *Engine) call(fr *frame, st *State, c *ast.CallExpr, k func(st *State, r
 				k(st, []Val{e.uf("actor_DefaultCheckerModifier", spec.Type{K: spec.KAny}, vs[0])})
 			})
 			return
+		case "github.com/nspcc-dev/neo-go/pkg/smartcontract.GetMajorityHonestNodeCount", "github.com/nspcc-dev/neo-go/pkg/smartcontract.GetDefaultHonestNodeCount":
+			// assumed (A10), as defined by neo-go: n - (n-1)/2 and n - (n-1)/3 (Go division)
+			d := int64(2)
+			if strings.HasSuffix(full, "GetDefaultHonestNodeCount") {
+				d = 3
+			}
+			e.evalList(fr, st, c.Args, func(st *State, vs []Val) {
+				k(st, []Val{mk(sx.App("-", vs[0].T, spec.Tdiv(sx.App("-", vs[0].T, sx.Int(1)), sx.Int(d))), spec.KInt)})
+			})
+			return
+		case "fmt.Errorf", "errors.New":
+			// a new error value is never nil
+			e.evalList(fr, st, c.Args, func(st *State, vs []Val) {
+				r := e.freshOf(spec.Type{K: spec.KAny}, "err")
+				st.facts = append(st.facts, sx.Not(sx.App("=", r.T, sx.Atom("AnyNull"))))
+				k(st, []Val{r})
+			})
+			return
+		case "(github.com/nspcc-dev/neo-go/pkg/util.Uint160).Equals", "(github.com/nspcc-dev/neo-go/pkg/util.Uint256).Equals":
+			// fixed-size byte arrays compare by content
+			e.evalList(fr, st, append([]ast.Expr{c.Fun.(*ast.SelectorExpr).X}, c.Args...), func(st *State, vs []Val) {
+				k(st, []Val{mk(sx.EqT(vs[0].bytes(), vs[1].bytes()), spec.KBool)})
+			})
+			return
 		case "bytes.HasPrefix":
 			e.evalList(fr, st, c.Args, func(st *State, vs []Val) {
 				k(st, []Val{mk(sx.App("str.prefixof", vs[1].bytes(), vs[0].bytes()), spec.KBool)})
@@ -392,6 +417,10 @@ func (e *Engine) call(fr *frame, st *State, c *ast.CallExpr, k func(st *State, r
 			})
 			return
 		}
+	}
+	if decl == nil && e.Go64 && fn.Pkg() != nil {
+		e.externalCall(fr, st, c, fn, k)
+		return
 	}
 	if decl == nil {
 		panic("no body and no model for " + full)
@@ -427,6 +456,57 @@ func (e *Engine) call(fr *frame, st *State, c *ast.CallExpr, k func(st *State, r
 		}
 		e.inline(fr, st, fn, decl, vs, k)
 	})
+}
+
+// externalCall (dialect go64) abstracts a call of a library function whose body is outside the verified packages: the
+// call is recorded, with the values of its arguments, in the ghost log named <package>.<Type>.<Func>, and
+// every result is an unconstrained value of its type. Nothing is assumed about what the callee computes (A10: it does not
+// write to variables of the caller other than through what it returns).
+func (e *Engine) externalCall(fr *frame, st *State, c *ast.CallExpr, fn *types.Func, k func(st *State, rets []Val)) {
+	name := fn.Pkg().Name() + "." + specKey(fn)
+	var argExprs []ast.Expr
+	sig := fn.Type().(*types.Signature)
+	recv := 0
+	if sig.Recv() != nil {
+		argExprs = append(argExprs, c.Fun.(*ast.SelectorExpr).X)
+		recv = 1
+	}
+	argExprs = append(argExprs, c.Args...)
+	e.evalList(fr, st, argExprs, func(st *State, vs []Val) {
+		ev := spec.Event{Name: name}
+		for _, v := range vs[recv:] { // the receiver (an object of the library) is evaluated but not part of the event
+
+			if v.T == nil {
+				continue
+			}
+			ev.Args = append(ev.Args, v.T)
+			ev.Sorts = append(ev.Sorts, v.Ty.Sort())
+		}
+		e.xlog(st, name)
+		e.xappend(st, name, ev)
+		st.dirty = true
+		e.havocAddressed(fr, st, argExprs)
+		var rets []Val
+		for i := 0; i < sig.Results().Len(); i++ {
+			rets = append(rets, e.freshOf(e.typeOf(sig.Results().At(i).Type()), "ext"))
+		}
+		k(st, rets)
+	})
+}
+
+// havocAddressed: after a call of unverified code, every variable or field whose address was passed (&x) holds an
+// unconstrained value of its type.
+func (e *Engine) havocAddressed(fr *frame, st *State, args []ast.Expr) {
+	for _, a := range args {
+		u, ok := a.(*ast.UnaryExpr)
+		if !ok || u.Op != token.AND {
+			continue
+		}
+		if _, lit := u.X.(*ast.CompositeLit); lit {
+			continue
+		}
+		e.assign(fr, st, u.X, e.freshOf(e.typeOf(fr.info.Types[u.X].Type), "addr"))
+	}
 }
 
 func returnsIterator(fn *types.Func) bool {
@@ -623,7 +703,8 @@ func (e *Engine) assign(fr *frame, st *State, lhs ast.Expr, v Val) {
 		}
 		base, ok := x.(*ast.Ident)
 		if !ok {
-			panic("unsupported assignment target")
+			e.assignPath(fr, st, lhs, v)
+			return
 		}
 		obj := info.Uses[base]
 		cur := st.vars[obj]
@@ -631,7 +712,8 @@ func (e *Engine) assign(fr *frame, st *State, lhs ast.Expr, v Val) {
 	case *ast.IndexExpr:
 		base, ok := l.X.(*ast.Ident)
 		if !ok {
-			panic("unsupported index assignment target")
+			e.assignPath(fr, st, lhs, v)
+			return
 		}
 		obj := info.Uses[base]
 		cur, _ := e.lookup(fr, st, obj)
@@ -654,6 +736,88 @@ func (e *Engine) assign(fr *frame, st *State, lhs ast.Expr, v Val) {
 	default:
 		panic(fmt.Sprintf("unsupported assignment target %T", lhs))
 	}
+}
+
+// assignPath handles targets that mix fields and list indexes below a variable (x.f[i].g = v): values are functional, so
+// the variable gets a new value with that one place replaced. An index out of range has no normal continuation.
+func (e *Engine) assignPath(fr *frame, st *State, lhs ast.Expr, v Val) {
+	type step struct {
+		field string
+		index ast.Expr
+	}
+	var steps []step
+	x := lhs
+loop:
+	for {
+		switch t := x.(type) {
+		case *ast.SelectorExpr:
+			steps = append([]step{{field: t.Sel.Name}}, steps...)
+			x = t.X
+		case *ast.IndexExpr:
+			steps = append([]step{{index: t.Index}}, steps...)
+			x = t.X
+		case *ast.ParenExpr:
+			x = t.X
+		case *ast.StarExpr:
+			x = t.X
+		default:
+			break loop
+		}
+	}
+	base, ok := x.(*ast.Ident)
+	if !ok {
+		panic("unsupported assignment target")
+	}
+	obj := fr.info.Uses[base]
+	cur, _ := e.lookup(fr, st, obj)
+	var upd func(cur Val, steps []step) Val
+	upd = func(cur Val, steps []step) Val {
+		if len(steps) == 0 {
+			return v
+		}
+		s := steps[0]
+		if s.index == nil {
+			if cur.Ty.K != spec.KStruct {
+				panic("field assignment on a non-struct value")
+			}
+			var ft spec.Type
+			var old *sx.T
+			for j, f := range e.Structs[cur.Ty.Name] {
+				if f.Name == s.field {
+					ft = f.Ty
+					if cur.T.Head() == "mk"+cur.Ty.Name {
+						old = cur.T.L[j+1]
+					} else {
+						old = sx.App(cur.Ty.Name+"_"+f.Name, cur.T)
+					}
+				}
+			}
+			if old == nil {
+				panic("no field " + s.field + " in " + cur.Ty.Name)
+			}
+			return e.setField(cur, []string{s.field}, upd(Val{TV: spec.TV{T: old, Ty: ft}}, steps[1:]))
+		}
+		if cur.Ty.K != spec.KList {
+			panic("index assignment below a field on " + cur.Ty.Sort())
+		}
+		var idx Val
+		e.eval(fr, st, s.index, func(_ *State, i Val) { idx = i })
+		st.facts = append(st.facts, sx.App("<=", sx.Int(0), idx.T), sx.App("<", idx.T, lenOf(cur)))
+		et := e.Lists[cur.Ty.Name]
+		if et.K == spec.KAny && len(steps) > 1 {
+			panic("assignment below an element of a list of dynamically typed items")
+		}
+		el := upd(Val{TV: spec.TV{T: sx.App("select", arrOf(cur), idx.T), Ty: et}}, steps[1:])
+		return Val{TV: spec.TV{T: sx.App("mk"+cur.Ty.Name, sx.Bool(false), lenOf(cur), sx.App("store", arrOf(cur), idx.T, e.box(el, et))), Ty: cur.Ty}}
+	}
+	nv := upd(cur, steps)
+	if _, local := st.vars[obj]; !local {
+		if _, global := e.globals[obj]; global {
+			e.globals[obj] = nv
+			return
+		}
+	}
+	st.vars[obj] = e.name(st, nv)
 }
 
 // setField returns the struct value cur with the field reached by path replaced by v.
@@ -924,6 +1088,16 @@ func (e *Engine) stmt(fr *frame, st *State, s ast.Stmt, k func(st *State)) {
 			run(st)
 		}
 	case *ast.ReturnStmt:
+		if c, ok := s.Results, true; ok && len(c) == 1 && fr.fn != nil && fr.fn.Type().(*types.Signature).Results().Len() > 1 {
+			// return f(...) of a call with several results
+			if call, ok := c[0].(*ast.CallExpr); ok {
+				e.call(fr, st, call, func(st *State, rets []Val) {
+					fr.escaped++
+					fr.onRet(st, rets)
+				})
+				return
+			}
+		}
 		e.evalList(fr, st, s.Results, func(st *State, vs []Val) {
 			if fr.fn != nil {
 				res := fr.fn.Type().(*types.Signature).Results()
